@@ -14,7 +14,7 @@
 (*               to fresh names (nothing there) was answered differently     *)
 (*               (status / error code / number of listed entries).  Only     *)
 (*               recorded where the order of the two values relative to      *)
-(*               every stored name is the same (a dot or empty segment       *)
+(*               every stored name is the same (a dot segment                *)
 (*               precedes the first name)                                    *)
 (* A line is accepted iff every change lies in the storage of the object the *)
 (* request names (AllowedEffect) and every disclosure is in its read scope   *)
